@@ -61,8 +61,9 @@ def tree_resize_job(rng, jid):
     after the wait the resizer must re-validate the head and still migrate the bin. Scripted so that the
     resizer blocks on exactly that lock, plus random schedules."""
     u = gen.Uids()
-    mixed = rng.random() < 0.5
-    h = {k: 7 + (64 * (k % 2) if mixed else 0) for k in range(1, 13)}
+    # all keys in the low half of the split, all in the high half (the old tree bin is re-used for that half), or both halves
+    split = rng.choice(["low", "high", "both", "both"])
+    h = {k: 7 + (64 * (k % 2) if split == "both" else 64 if split == "high" else 0) for k in range(1, 13)}
     fillers = list(range(100, 160))
     for f in fillers:
         b = (f * 2 + 1) % 64
@@ -87,7 +88,7 @@ def tree_resize_job(rng, jid):
     t1 = [gen.ins(fillers[nf], u)] + ([gen.ins(fillers[nf + 1], u)] if rng.random() < 0.5 else [])
     t2 = [rng.choice([{"op": "get", "k": rng.randint(1, 5)}, gen.ins(12, u), {"op": "remove", "k": rng.randint(1, 5)}])]
     threads = [t0, t1, t2]
-    job = {"id": jid, "cfg": "treeresize-" + shape, "kind": rng.choice(["map", "map", "set"]), "pin": rng.random() < 0.3,
+    job = {"id": jid, "cfg": "treeresize-%s-%s" % (shape, split), "kind": rng.choice(["map", "map", "set"]), "pin": rng.random() < 0.3,
            "scope": rng.choice(["op", "thread"]), "hasher": gen.table_hasher(h), "cap": 42, "batch": rng.choice([0, 1]),
            "prefix": pre, "threads": threads, "sched": gen.schedule(rng, 3, 1500), "finals": list(range(1, 13)) + fillers[:nf + 2],
            "rec": ["site"], "budget": 600000}
